@@ -39,7 +39,10 @@ Calls == [name : {"translated"}, dx : {-3, 2}, dy : {0, 1}]
          \cup [name : {"scaled"}, fx : {2, -1}, fy : {1, 3}, o : Origins]
          \cup [name : {"rotated"}, q : {1, 2, 3, -1, 5}, o : Origins]
          \cup [name : {"skewed"}, tx : {0, 1, -1}, ty : {0, 1}, o : Origins]
-         \cup [name : {"compose"}, other : {<<0, 1, 0, 1, 0, 0>>, <<2, 1, -1, 1, 1, 3>>, <<1, 2, 0, 2, 4, 1>>}]
+         \cup [name : {"compose"}, other : {<<0, 1, 0, 1, 0, 0>>, <<2, 1, -1, 1, 1, 3>>, <<1, 2, 0, 2, 4, 1>>,
+                                            \* singular without rotation or shear part (one axis collapsed), and the zero matrix
+                                            <<1, 0, 0, 0, 0, 2>>, <<0, 0, 1, 0, 3, 2>>, <<0, 0, 5, 0, 0, 7>>}]
+         \cup [name : {"scaled"}, fx : {0}, fy : {2}, o : {<<1, 2>>}] \cup [name : {"scaled"}, fx : {1}, fy : {0}, o : {<<0, 0>>}]
 Elem(c) == CASE c.name = "translated" -> Translate(c.dx, c.dy)
              [] c.name = "scaled" -> Scale(c.fx, c.fy, c.o)
              [] c.name = "rotated" -> Rotate(c.q, c.o)
